@@ -1787,10 +1787,36 @@ mod c22 {
                 .filter(|p| {
                     let rpath = rp(p);
                     let u = unresolved.path_value(&rpath).block_on().expect("path_value");
-                    let r = normalize(resolved.path_value(&rpath).block_on().expect("path_value"));
+                    let r_raw = resolved.path_value(&rpath).block_on().expect("path_value");
+                    let r = normalize(r_raw.clone());
                     let a_raw = after.path_value(&rpath).block_on().expect("path_value");
                     let a = normalize(a_raw.clone());
-                    r == a && u != a_raw && !u.is_resolved()
+                    if r == a && u != a_raw && !u.is_resolved() {
+                        return true;
+                    }
+                    // Same class, wider: jj compares conflict term lists literally.
+                    // Values that denote the same thing but differ in term order or
+                    // arity are neither required nor forbidden to be recorded.
+                    let den = |m: &jj_lib::backend::MergedTreeValue| {
+                        crate::p_merge::den_terms(&m.iter().map(|t| format!("{t:?}")).collect::<Vec<_>>())
+                    };
+                    if r_raw != a_raw && den(&r_raw) == den(&a_raw) {
+                        return true;
+                    }
+                    // A file/directory clash at the path or above it: jj reports
+                    // the clash point, the oracle enumerates leaves below it.
+                    let is_clash = |m: &jj_lib::backend::MergedTreeValue| {
+                        let has_tree = m.iter().any(|t| matches!(t, Some(jj_lib::backend::TreeValue::Tree(_))));
+                        let has_other = m.iter().any(|t| !matches!(t, Some(jj_lib::backend::TreeValue::Tree(_)) | None));
+                        !m.is_resolved() && has_tree && has_other
+                    };
+                    let comps: Vec<&str> = p.split('/').collect();
+                    (1..=comps.len()).any(|k| {
+                        let q = rp(&comps[..k].join("/"));
+                        [&unresolved, &resolved, &after]
+                            .iter()
+                            .any(|t| is_clash(&t.path_value(&q).block_on().expect("path_value")))
+                    })
                 })
                 .collect()
         };
@@ -1871,9 +1897,9 @@ mod c22 {
                             ));
                         }
                     }
-                    if got != expected && got.is_superset(&expected) {
+                    if got != expected {
                         let tolerated = tolerated_paths(st, i);
-                        if got.difference(&expected).all(|p| tolerated.contains(p)) {
+                        if got.symmetric_difference(&expected).all(|p| tolerated.contains(p)) {
                             seen.keyed_commits += 1;
                             keyed(
                                 seen,
@@ -1929,15 +1955,16 @@ mod c22 {
                 .collect();
             seen.revset_queries += 1;
             seen.revset_matches += want.len() as u64;
-            if got != want && got.is_superset(&want) {
-                let mut lenient = want.clone();
+            if got != want {
+                let mut lenient: BTreeSet<CommitId> = BTreeSet::new();
                 for (i, _) in &all_expected {
                     let t = tolerated_paths(st, *i);
-                    if t.iter().any(|p| p == q || (!exact && p.starts_with(&prefix))) {
+                    // a tolerated path at, below or above the queried path
+                    if t.iter().any(|p| p == q || p.starts_with(&prefix) || q.starts_with(&format!("{p}/"))) {
                         lenient.insert(st.dag.id(*i).clone());
                     }
                 }
-                if got.is_subset(&lenient) {
+                if got.symmetric_difference(&want).all(|id| lenient.contains(id)) {
                     keyed(
                         seen,
                         "files_revset.same_commits_as_scan.unsimplified_parent_conflict",
